@@ -29,7 +29,7 @@ LEVEL_NOTE = ("virtual clock (async_solipsism + time_machine); timer lateness is
               "additions, verdicts use sink-observed timestamps")
 RULE = ("seeded configurations x latency scripts x addition scripts; distinct = canonical case JSON; non-trivial = >=8 "
         "ticks observed and (a latency >= 1 period or a series added while running or a non-aligned creation phase)")
-REQUIRED_BUCKETS = ["clock-moves-on-between-readings-while-the-resampler-is-constructed",
+REQUIRED_BUCKETS = ["period-of-18-hours-or-more", "clock-moves-on-between-readings-while-the-resampler-is-constructed",
                     "align:none", "align:epoch", "align:past-nonmultiple", "align:future", "creation-exactly-aligned",
                     "creation-1us-off", "align_to-in-non-utc-timezone", "align_to-in-daylight-saving-zone", "resampling-function-yields-NaN-for-some-ticks", "latency>=1period", "latency-several-periods", "series-added-between-ticks",
                     "series-added-during-slow-tick", "catch-up-observed", "multi-series", "actor-tier",
@@ -54,7 +54,7 @@ def gen(rng: Any, tier: str, i: int) -> Any:
         return gen_actor(rng)
     if r0 < 0.34:
         return gen_mw(rng)
-    period = rng.choice([0.1, 0.2, 1.0, 1.0, 2.5, 60.0, 7.0, 3600.0])
+    period = rng.choice([0.1, 0.2, 1.0, 1.0, 2.5, 60.0, 7.0, 3600.0, 64800.0, 86400.0, 129600.0])  # (up to days)
     ak = rng.choice(["none", "epoch", "past", "future"])
     align = {"none": None, "epoch": 0.0, "past": -rng.choice([0.3, 7.123456, 1234.5]) * 1.0,
              "future": rng.choice([1000.0, 86400.0 + 0.25, 3.3])}[ak]
@@ -448,6 +448,8 @@ def check(case: dict[str, Any], rec: Any) -> None:
         rec.bucket("multi-series")
     r = resamp.run_case(c)
     rec.count("runs")
+    if p >= 64800.0:
+        rec.bucket("period-of-18-hours-or-more")
     if r.get("clock_readings_during_construction", 0) >= 1:
         rec.bucket("clock-moves-on-between-readings-while-the-resampler-is-constructed")
     created = r["created"]
@@ -525,6 +527,11 @@ def check(case: dict[str, Any], rec: Any) -> None:
         for e in lst:
             if e["t_recv"] > e["ts"] + per:
                 late_seen = True
+            # a sample stamped T closes the window that ends at T: it cannot be produced before T
+            if e["t_recv"] < e["ts"] - timedelta(milliseconds=1):
+                rec.violation("sample-emitted-before-its-own-timestamp",
+                              {**w0, "series": i, "timestamp": str(e["ts"]), "emitted_at": str(e["t_recv"])})
+                return
     if late_seen:
         rec.bucket("catch-up-observed")
     # bounded progress: lateness has stopped and drain_periods (> max latency + 2) have elapsed
